@@ -46,6 +46,7 @@ type c04ConcCase struct {
 	Order      []int       `json:"order"` // start order
 	Procs      int         `json:"procs"`
 	Compilers  int         `json:"compilers"` // goroutines compiling concurrently
+	Cold       bool        `json:"cold"`      // the goroutines hit freshly compiled, never evaluated expressions (the "alone" results come from a second compilation afterwards)
 }
 
 var c04ExprPool = []string{
@@ -58,7 +59,7 @@ var c04ExprPool = []string{
 }
 
 func c04GenConc(s Src) c04ConcCase {
-	c := c04ConcCase{Procs: pickOne(s, []int{1, 2, 4, 16}), Compilers: s.Range(0, 3)}
+	c := c04ConcCase{Procs: pickOne(s, []int{1, 2, 4, 16}), Compilers: s.Range(0, 3), Cold: s.Bool()}
 	ne := s.Range(1, 6)
 	for i := 0; i < ne; i++ {
 		if s.Prob(80) {
@@ -162,6 +163,7 @@ func c04RunConc(ctx *Ctx, c c04ConcCase) {
 	}
 	// compile (sequentially; Compile isolation is sub-check c)
 	exprs := make([]*fhirpath.Expression, len(c.Exprs))
+	alone := make([]*fhirpath.Expression, len(c.Exprs)) // a second compilation: the sequential reference
 	for i, src := range c.Exprs {
 		e, err := fhirpath.Compile(src, compopts.AddFunction("myFn", c04MyFn), compopts.WithExperimentalFuncs())
 		if err != nil {
@@ -169,6 +171,10 @@ func c04RunConc(ctx *Ctx, c c04ConcCase) {
 			continue
 		}
 		exprs[i] = e
+		alone[i], _ = fhirpath.Compile(src, compopts.AddFunction("myFn", c04MyFn), compopts.WithExperimentalFuncs())
+		if !c.Cold {
+			alone[i] = e // warm: the very expression the goroutines share
+		}
 	}
 	var snaps []snap
 	for _, r := range shared {
@@ -184,10 +190,10 @@ func c04RunConc(ctx *Ctx, c c04ConcCase) {
 			k := key{ev.Expr, ev.Res, ev.Opt}
 			sameTarget[k]++
 			if _, ok := baseline[k]; !ok && exprs[ev.Expr] != nil {
-				b := c04EvalOnce(exprs[ev.Expr], subset(ev.Res), optsFor(ev.Opt))
+				b := c04EvalOnce(alone[ev.Expr], subset(ev.Res), optsFor(ev.Opt))
 				// synthesised items (reference strings, unpacked contained resources) have no stable
 				// identity even sequentially: compare their rendering only
-				if again := c04EvalOnce(exprs[ev.Expr], subset(ev.Res), optsFor(ev.Opt)); !reflect.DeepEqual(again.ptrs, b.ptrs) {
+				if again := c04EvalOnce(alone[ev.Expr], subset(ev.Res), optsFor(ev.Opt)); !reflect.DeepEqual(again.ptrs, b.ptrs) {
 					b.ptrs = nil
 					unstable[k] = true
 				}
